@@ -14,12 +14,19 @@ use crate::prog::Prog;
 pub struct Axis {
     pub name: &'static str,
     pub size: usize,
-    /// whether a deviation on this axis is named in the signature's hole class
-    pub in_sig: bool,
+    /// Priority with which a deviation on this axis is named in the signature's
+    /// hole class: 0 = context (named only if nothing else deviates), 1 = hole,
+    /// 2 = primary hole (when one deviates, lower priorities are not named).
+    pub in_sig: u8,
 }
 
 pub fn ax(name: &'static str, size: usize, in_sig: bool) -> Axis {
-    Axis { name, size, in_sig }
+    Axis { name, size, in_sig: in_sig as u8 }
+}
+
+/// Primary hole (constant shape class).
+pub fn ax2(name: &'static str, size: usize) -> Axis {
+    Axis { name, size, in_sig: 2 }
 }
 
 pub struct Built {
@@ -110,12 +117,17 @@ struct ChunkOut {
     outcome_hashes: Vec<u64>,
 }
 
+/// In the shape-arithmetic grammar a violation that needs shape inference is
+/// named after the folding site, not after whatever downstream operator was
+/// subsequently fused or elided.
+fn site_for(t: &Template, v: &exec::Violation) -> String {
+    if t.generator == "shape-arithmetic" && v.only_with_inference { "shape-inference constant folding".to_string() } else { v.site.clone() }
+}
+
 fn hole_class(t: &Template, p: &[usize], tags: &[String]) -> String {
-    let mut parts: Vec<String> =
-        (0..p.len()).filter(|d| p[*d] != 0 && t.axes[*d].in_sig).map(|d| format!("{}={}", t.axes[d].name, tags[d])).collect();
-    if parts.is_empty() {
-        parts = (0..p.len()).filter(|d| p[*d] != 0).map(|d| format!("{}={}", t.axes[d].name, tags[d])).collect();
-    }
+    let top = (0..p.len()).filter(|d| p[*d] != 0).map(|d| t.axes[d].in_sig).max().unwrap_or(0);
+    let parts: Vec<String> =
+        (0..p.len()).filter(|d| p[*d] != 0 && t.axes[*d].in_sig == top).map(|d| format!("{}={}", t.axes[d].name, tags[d])).collect();
     if parts.is_empty() { "canonical instance".to_string() } else { parts.join(", ") }
 }
 
@@ -266,7 +278,7 @@ pub fn run(ctx: Ctx) -> ! {
                 }
                 if let Some(v) = &r.violation {
                     out.stats.violations += 1;
-                    let key = (v.site.clone(), v.what.clone());
+                    let key = (site_for(t, v), v.what.clone());
                     let id = match out.cores.iter().position(|c| *c == key) {
                         Some(i) => i,
                         None => {
@@ -399,7 +411,7 @@ pub fn run(ctx: Ctx) -> ! {
         let (Some(v1), Some(v2)) = (&r1.violation, &r2.violation) else {
             ctx.machinery(&format!("violation did not reproduce on re-run (uncontrolled nondeterminism): {sig}"));
         };
-        if v1.site != v2.site || v1.what != v2.what || !sig.starts_with(&format!("{}: {} [", v1.site, v1.what)) {
+        if v1.site != v2.site || v1.what != v2.what || !sig.starts_with(&format!("{}: {} [", site_for(t, v1), v1.what)) {
             ctx.machinery(&format!("violation changed on re-run (uncontrolled nondeterminism): {sig}"));
         }
         let hole = hole_class(t, &rep.p, &b.tags);
